@@ -272,6 +272,20 @@ pub proof fn lemma_suffix_len(s0: Seq<u8>, s1: Seq<u8>)
     assert(s1.len() == s0.len() - j);
 }
 
+/// skipping a and then b bytes is skipping a + b bytes, and what is left is a suffix
+pub proof fn lemma_two_skips(s: Seq<u8>, a: nat, b: nat)
+    requires
+        a + b <= s.len(),
+    ensures
+        s.skip(a as int).skip(b as int) == s.skip((a + b) as int),
+        suffix_of(s, s.skip((a + b) as int)),
+        suffix_of(s, s.skip(a as int)),
+{
+    assert(s.skip(a as int).skip(b as int) =~= s.skip((a + b) as int));
+    lemma_suffix_skip(s, a + b);
+    lemma_suffix_skip(s, a);
+}
+
 pub proof fn lemma_suffix_refl(s0: Seq<u8>)
     ensures
         suffix_of(s0, s0),
